@@ -148,7 +148,10 @@ impl Prop for C07 {
                 // every error lands at the start of a reply)
                 let k = rng.usize(1, 40);
                 for _ in 0..k {
-                    if rng.chance(1, 4) {
+                    if rng.chance(1, 12) {
+                        writes.push(crate::scenario::WriteEv::Zero);
+                        n_err += 1;
+                    } else if rng.chance(1, 4) {
                         writes.push(crate::scenario::WriteEv::Err(*rng.pick(&[
                             crate::scenario::ErrKind::WouldBlock,
                             crate::scenario::ErrKind::TimedOut,
